@@ -20,6 +20,7 @@ def reader(ctx, P, module=False):
     _ensure(ctx, P + "/reader-whole-request", lambda n: c17.rule_whole_request(ctx, R=n))
     _ensure(ctx, P + "/reader-no-address-veto", lambda n: c17.rule_no_address_veto(ctx, R=n))
     _ensure(ctx, P + "/reader-style-cache", lambda n: c17.rule_style_cache(ctx, R=n))
+    _ensure(ctx, P + "/reader-probing-exhaustive", lambda n: c17.rule_probing_exhaustive(ctx, R=n))
     if module:
         _ensure(ctx, P + "/module-read-verbatim", lambda n: c14.rule_process_read_verbatim(ctx, R=n))
 
